@@ -29,7 +29,16 @@ fn params() -> gen::StateParams {
 
 pub fn case_strategy() -> BoxedStrategy<(String, StateSpec)> {
     let p = params();
-    state_for_any(NAMES.iter().map(|s| s.to_string()).collect(), &p)
+    // NAME operands: the host can put any string on the NAME stack - in a tenth of the cases one
+    // of the top two names is empty, contains a blank or is a single character
+    (state_for_any(NAMES.iter().map(|s| s.to_string()).collect(), &p), 0u8..20, prop::sample::select(vec!["", " ", "a b", "x", "", "TRUE"]))
+        .prop_map(|((name, mut s), k, odd)| {
+            if k < 2 && s.names.len() > k as usize {
+                s.names[k as usize] = odd.to_string();
+            }
+            (name, s)
+        })
+        .boxed()
 }
 
 fn operands_distinct(name: &str, s: &StateSpec) -> bool {
